@@ -524,7 +524,9 @@ Definition mc_segment (ls : lst) (h : cheap) : cheap * lst :=
       | None => (h, k_ret ls (KErr XEFUEL))
       end
   | PRmAllP d c nm =>
-      if k_is_dir h c then (h, k_goto ls (PRmAllE d c nm))
+      (* re-check under the parent's lock: the name may be gone or bound to another node by now *)
+      if negb (match k_lookup h d nm with Some c' => Nat.eqb c' c | None => false end) then (h, k_ret ls KOk)
+      else if k_is_dir h c then (h, k_goto ls (PRmAllE d c nm))
       else (k_remove_child h d nm, k_goto ls (PRmAllD d c nm))
   | PRmAllE d c nm =>
       match k_kids h c with
